@@ -147,6 +147,27 @@ def gen_integration(rng):
     return dict(pattern=pattern, desc=desc, data=data, centers=centers, parts=rand_partitions(rng, n))
 
 
+def gen_integration_exact(rng):
+    '''Exactly representable masks (bool / small integers / float32 dyadics) and frames whose values need more than
+    float32: the integration result must then be the exact sum (all partial sums stay far below 2**53).'''
+    n = int(rng.integers(1, 4))
+    ty, tx = int(rng.integers(2, 9)), int(rng.integers(2, 9))
+    tdtype = str(rng.choice(['bool', 'uint8', 'int16', 'float32']))
+    t = rng.integers(0, 2 if tdtype == 'bool' else 4, size=(ty, tx))
+    t[ty // 2, tx // 2] = 1
+    search = int(rng.integers(1, 6))
+    desc = {'kind': 'UserTemplate', 'template': t.tolist(), 'tdtype': tdtype, 'search': search}
+    pattern = cl.pattern_from_desc(desc)
+    c = pattern.get_crop_size()
+    fy, fx = int(rng.integers(6, 20)), int(rng.integers(6, 20))
+    dt = str(rng.choice(['float64', 'int32', 'uint32', 'int64']))
+    hi = {'float64': 2 ** 36, 'int64': 2 ** 36, 'int32': 2 ** 31 - 1, 'uint32': 2 ** 32 - 1}[dt]
+    data = rng.integers(hi // 2, hi, size=(n, fy, fx)).astype(dt)
+    npk = int(rng.integers(1, 4))
+    centers = np.array([cl.rand_peaks(rng, fy, fx, c, npk) for _ in range(n)], dtype=np.int64)
+    return dict(pattern=pattern, desc=desc, data=data, centers=centers, parts=rand_partitions(rng, n), exact=True)
+
+
 def run_integration(c):
     aux = StubUDF.aux_data(c['centers'], kind='nav', extra_shape=c['centers'].shape[1:], dtype=np.int64)
     return run_udf(ui.IntegrationUDF(centers=aux, pattern=c['pattern']), c['data'], partitions=c['parts'])['integration']
@@ -163,7 +184,7 @@ def integration_failure(c):
         for k, p in enumerate(c['centers'][f]):
             w = cl.window_float(c['data'][f].astype(np.float64), cs, p)
             want = float((w * m).sum())
-            if abs(got[f, k] - want) > 1e-4 * (np.abs(w * m).sum() + 1):
+            if abs(got[f, k] - want) > (0 if c.get('exact') else 1e-4 * (np.abs(w * m).sum() + 1)):
                 return 'frame %d peak %s: integration %.6g != sum of the zero-padded frame over the mask %.6g' % (f, p.tolist(), got[f, k], want)
     return None
 
@@ -172,7 +193,8 @@ def replay(body):
     print(json.dumps({'note': 'replay of C11 cases re-runs the oracle on the stored arguments', 'stored_failure': body.get('failure')}, indent=1))
     a = body['args']
     if body.get('call') == 'IntegrationUDF':
-        c = dict(pattern=cl.pattern_from_desc(a['pattern']), desc=a['pattern'], data=np.array(a['data'], dtype=a['dtype']), centers=np.array(a['centers']), parts=a['partitions'])
+        c = dict(pattern=cl.pattern_from_desc(a['pattern']), desc=a['pattern'], data=np.array(a['data'], dtype=a['dtype']), centers=np.array(a['centers']), parts=a['partitions'],
+                 exact=a.get('exact', False))
         fail = integration_failure(c)
     elif body.get('call') == 'run_refine':
         c = {k: (np.array(v) if isinstance(v, list) and k not in ('parts',) else v) for k, v in a.items()}
@@ -190,10 +212,12 @@ def replay(body):
 def run(ctx):
     rng = ctx.rng
     ctx.check_theorems()
+    ctx.check_generated(['qlat'])
     # (K) IntegrationUDF vs UDF.integrate (exact integers x quantised mask)
     exprs, meta = [], []
-    for k in range(ctx.n(10, 80)):
-        c = gen_integration(rng)
+    nq = ctx.n(10, 80)
+    for k in range(nq + ctx.n(8, 60)):
+        c = gen_integration(rng) if k < nq else gen_integration_exact(rng)
         got = run_integration(c)
         cs = c['pattern'].get_crop_size()
         mq = cl.quant(np.asarray(c['pattern'].get_mask((2 * cs, 2 * cs)), dtype=np.float64))
@@ -203,15 +227,17 @@ def run(ctx):
                 exprs.append('integrate %d %d (Crop.of_list2 %s) %d (Corr.of_list2 %s) %s %s' % (fy, fx, clist2(c['data'][f].astype(np.int64).tolist()), cs, clist2(mq.tolist()), cz(p[0]), cz(p[1])))
                 w = cl.window_float(c['data'][f].astype(np.float64), cs, p)
                 mfl = np.asarray(c['pattern'].get_mask((2 * cs, 2 * cs)), dtype=np.float64)
-                meta.append((float(got[f, kk]), c['desc'], p.tolist(), (float((np.abs(w) * np.abs(mfl)).sum()), float(np.abs(w).sum() / cl.QS))))
-        ctx.hist('dtype', str(c['data'].dtype))
+                meta.append((float(got[f, kk]), c['desc'], p.tolist(), (0.0, 0.0, 0.0) if c.get('exact') else
+                             (2e-5 * float((np.abs(w) * np.abs(mfl)).sum()), float(np.abs(w).sum() / cl.QS), 1e-6)))
+        ctx.hist('dtype', str(c['data'].dtype) + ('/exact-mask ' + c['desc']['tdtype'] if c.get('exact') else ''))
     vals = ctx.coq_eval('integ', cl.COQ_IMPORTS + ' Model.Stamp Model.UDF', exprs, shard=40)
     nbad = 0
     for mv, (iv, desc, p, scale) in zip(vals, meta):
         m = mv / float(cl.QS)
         ctx.count(1, key=('integ', desc, p, iv))
         # float32 accumulation of terms of magnitude [scale] (cancellation for zero-sum masks) + mask quantisation
-        if abs(m - iv) > 2e-5 * scale[0] + scale[1] + 1e-6:
+        # (exact-mask stream: integer data x exactly representable mask, all sums < 2**53: no tolerance at all)
+        if abs(m - iv) > sum(scale):
             nbad += 1
             ctx.obligation('K:C11 integration entry', False, 'model %.6g impl %.6g peak %s' % (m, iv, p))
     ctx.obligation('K:C11 IntegrationUDF = UDF.integrate (sum of the zero-padded crop times the mask) for %d (frame, peak) entries' % len(vals), nbad == 0, '%d mismatches' % nbad)
@@ -259,12 +285,12 @@ def run(ctx):
             ctx.violation('input', fail, {'kind': 'schedule', 'call': 'run_refine', 'args': args, 'failure': fail}, signature=sig)
             break
     for k in range(ctx.n(40, 600)):
-        c = gen_integration(rng)
+        c = gen_integration(rng) if k % 3 else gen_integration_exact(rng)
         fail = integration_failure(c)
         ctx.count(len(c['data']))
         if fail:
             ctx.violation('input', fail, {'kind': 'schedule', 'call': 'IntegrationUDF', 'args': {'pattern': c['desc'], 'data': c['data'].tolist(), 'dtype': str(c['data'].dtype),
-                                                                                              'centers': c['centers'].tolist(), 'partitions': c['parts']}, 'failure': fail})
+                                                                                              'centers': c['centers'].tolist(), 'partitions': c['parts'], 'exact': bool(c.get('exact'))}, 'failure': fail})
             break
     ctx.assumptions.append('LiberTEM is not installed: the UDF classes run under harness/stubs/libertem (explicit-schedule runner with a fake Context/DataSet); this runner is the UDF semantics for this check')
     return ctx.finish(
@@ -274,4 +300,4 @@ def run(ctx):
                     'indices vs Lattice.frame_peaks; oracle: stored (zero, a, b, selector, error) bit-identical (float32) to the matcher applied to each frame\'s correlation '
                     'result started from zero + that frame\'s shift, dispatch table and rejection of unknown names, sparse rejects a zero shift.',
         rule='1..6 frames rendered with cbed_frame + Poisson noise, random partitions, zero shift none/constant/per-frame/fractional, correlation fast/fullframe/sparse x match '
-             'fast/affine, tolerances 0.4/1/3, index layouts mgrid and (n,2); integration: 1..4 frames, per-frame integer centres incl. border/outside, 4 dtypes.')
+             'fast/affine, tolerances 0.4/1/3, index layouts mgrid and (n,2); integration: 1..4 frames, per-frame integer centres incl. border/outside, 4 dtypes; exact-mask stream: bool/uint8/int16/float32 user templates on float64/int32/uint32/int64 frames with values up to 2**36, compared without tolerance.')
